@@ -19,7 +19,7 @@ import (
 func init() {
 	register("C24", c24)
 	meta("C24", Meta{
-		Text:      "Decides structural necessary conditions of 'the root hash is a function of the history only': (1) read-set — the functions that compute hashes (Hash, RebuildMiniMerkle, MiniMerkle.Build/SetSlot/Root, HashInner, HashLeafSlot*) read, transitively, only the content fields numKeys/childHashes (inner) and numKeys/keys/valueHashes (leaf) plus the cached miniTree, never nodeKey/ndb/childNodes/children/valueKeys/options/cache, and call nothing but sha256/binary/hash.Hash; (2) cache coherence — in every function of the package a write to one of those hash-input fields of a node is followed, on every non-failing path to the function's exit, by a refresh of that node's miniTree (RebuildMiniMerkle/SetSlot), except for the listed helpers that leave a parameter or result stale, whose callers are checked to refresh it (fixUnderflow chain → innerRemove; splitLeaf/splitInner → leafInsert/innerInsert); (3) Serialize and readInnerNode/readLeafNode touch the same fields in the same order with matching encoders/decoders, every struct field is either persisted or in the in-memory table, and the reader ends with RebuildMiniMerkle; (4) the ExportNode fields produced by the exporter, consumed by Importer.Add and declared by the struct are the same set; (5) no range over a map in the package; (6) SaveVersion records the hash of the root after saveNode. Level 'other'.",
+		Text:      "Decides structural necessary conditions of 'the root hash is a function of the history only': (1) read-set — the functions that compute hashes (Hash, RebuildMiniMerkle, MiniMerkle.Build/SetSlot/Root, HashInner, HashLeafSlot*) read, transitively, only the content fields numKeys/childHashes (inner) and numKeys/keys/valueHashes (leaf) plus the cached miniTree, never nodeKey/ndb/childNodes/children/valueKeys/options/cache, and call nothing but sha256/binary/hash.Hash; (2) cache coherence — in every function of the package a write to one of those hash-input fields of a node is followed, on every non-failing path to the function's exit, by a refresh of that node's miniTree (RebuildMiniMerkle/SetSlot), except for the listed helpers that leave a parameter or result stale, whose callers are checked to refresh it (fixUnderflow chain → innerRemove; splitLeaf/splitInner → leafInsert/innerInsert); (3) Serialize and readInnerNode/readLeafNode touch the same fields in the same order with matching encoders/decoders, every struct field is either persisted or in the in-memory table, and the reader ends with RebuildMiniMerkle; (4) the ExportNode fields produced by the exporter, consumed by Importer.Add and declared by the struct are the same set; (5) no range over a map in the package; (6) SaveVersion records the hash of the root after saveNode; (7) MiniMerkle.tree is written only by SetSlot/Build/Clear and the two RebuildMiniMerkle, and saveNode calls the full RebuildMiniMerkle of both node kinds before persisting. Level 'other'.",
 		Note:      "Not covered: equality of hashes across reopen/cache sizes/pruning schedules as behaviour, separator keys and childSizes are outside the hash by design (documented in import.go), value bytes vs valueHash agreement (Set computes sha256 of the value it stores: C26/C23 territory), DB backends.",
 		Technique: "call-closure field read-set, go/cfg must-pass-after with a caller-refreshes contract table, ordered field/callee sequence comparison (sibling rule), struct-field exhaustiveness",
 		Ref:       "DESIGN.md §2 C24",
@@ -126,7 +126,7 @@ type tgHashWrite struct {
 }
 
 func c24(c *engine.Ctx) {
-	c.Explain = "Decides: hash functions read only content fields (numKeys, childHashes / keys, valueHashes) and the cached miniTree, and call only sha256/binary/hash.Hash; every write to a hash-input field is followed by a miniTree refresh of the same node on all non-failing paths (caller-refreshes contracts for the underflow helpers and the split constructors are checked at their callers); Serialize and readInnerNode/readLeafNode agree on field order and encodings and cover every persisted struct field; ExportNode is produced and consumed field for field; no map iteration in the package; SaveVersion hashes the root after saveNode. Not covered: hash equality across reopen/prune as behaviour; separator keys and childSizes are outside the hash by design."
+	c.Explain = "Decides (plus: closed writer set of MiniMerkle.tree; saveNode persists only after the full RebuildMiniMerkle): hash functions read only content fields (numKeys, childHashes / keys, valueHashes) and the cached miniTree, and call only sha256/binary/hash.Hash; every write to a hash-input field is followed by a miniTree refresh of the same node on all non-failing paths (caller-refreshes contracts for the underflow helpers and the split constructors are checked at their callers); Serialize and readInnerNode/readLeafNode agree on field order and encodings and cover every persisted struct field; ExportNode is produced and consumed field for field; no map iteration in the package; SaveVersion hashes the root after saveNode. Not covered: hash equality across reopen/prune as behaviour; separator keys and childSizes are outside the hash by design."
 	p := c.Load("tm2/pkg/bptree")
 	if p == nil {
 		return
